@@ -112,6 +112,10 @@ def iter_guardrail_configs(fh: BinaryIO, xorkey: bytes = b"\x8a") -> Iterator[Gu
             log.info("Found guardrail config at offset: %u in %r", offset, fh)
             guard_config_offset = offset + 6
             beacon_config_offset = guard_config_offset - BEACON_CONFIG_PATCH_SIZE
+            if beacon_config_offset < 0:
+                # not enough room for a beacon config in front of it, cannot be a guardrail config
+                offset += 1
+                continue
             fh.seek(beacon_config_offset)
             masked_beacon_config = fh.read(BEACON_CONFIG_PATCH_SIZE)
             masked_guard_config = fh.read(GUARD_PATCH_SIZE)
@@ -123,7 +127,10 @@ def iter_guardrail_configs(fh: BinaryIO, xorkey: bytes = b"\x8a") -> Iterator[Gu
             while True:
                 if fh_guard.peek(2)[:2] == b"\x00\x00":
                     break
-                setting = GuardrailSetting(fh_guard)
+                try:
+                    setting = GuardrailSetting(fh_guard)
+                except EOFError:
+                    break
                 settings.append(setting)
                 log.debug(setting)
                 if setting.option == GuardOption.GUARD_PAYLOAD_CHECKSUM:
